@@ -32,7 +32,9 @@ theorem cuba_go_euler (dt tau_syn tau_mem R vl vthr w : ℝ) (xs : List ℝ) (I 
     simp only [go, eulerRun, eulerStep, h]
     rw [ih]
 
-/-- **The whole reference run** — any number of time steps, any input sequence, from the zero state the constructor
+/-- (`cuba_go_euler` above is the statement for a run that starts from *any* state `(I, v)` — a model that has been
+used before goes on from where it stopped.)
+**The whole reference run** — any number of time steps, any input sequence, from the zero state the constructor
 sets up — returns, step by step, exactly the spikes, voltages and currents of the forward-Euler iteration of the
 documented CubaLIF equations. -/
 theorem cuba_run_euler (dt tau_syn tau_mem R vl vthr w : ℝ) (xs : List ℝ) :
